@@ -129,3 +129,6 @@ Definition dbl_max : Q := inject_Z ((2 ^ 53 - 1) * 2 ^ 971).
 (** what the harness observes of one variable: count(), mean(), variance(1), variance(0), min(), max() *)
 Definition observe (a : agg) : N * (Q * (Q * (Q * (Q * Q)))) :=
   (count a, (Qred (mean a), (Qred (variance a 1), (Qred (variance a 0), (Qred (amin a), Qred (amax a)))))).
+
+(** numeric_limits<float>::max() *)
+Definition flt_max : Q := inject_Z ((2 ^ 24 - 1) * 2 ^ 104).
